@@ -5,6 +5,7 @@ mod c01;
 mod c02;
 mod c03;
 mod c04;
+mod c06;
 mod c20;
 
 use hvcommon::args::Args;
@@ -21,6 +22,7 @@ fn main() {
         "c03-worker" => c03::worker(&args),
         "c03-one" => c03::one(&args),
         "c04" => c04::main(&args),
+        "c06" => c06::main(&args),
         "c20" => c20::main(&args),
         other => {
             eprintln!("unknown sub-command {:?}", other);
